@@ -509,6 +509,29 @@ func firstDiff(a, b []byte) int {
 	return n
 }
 
+// opBadStream decodes a stream whose filter chain fails half-way through its
+// construction; the stages already built must be released exactly once.
+func (w *world) opBadStream(tk int, ref pdf.Reference) {
+	obj, err := w.r.Get(ref, true)
+	stm, ok := obj.(*pdf.Stream)
+	if err != nil || !ok {
+		if err != nil && !isInjected(err) {
+			w.fail("unexpected-error", map[string]string{"op": "badstream"}, "Get(%s): %v", ref, err)
+		}
+		return
+	}
+	rc, err := pdf.DecodeStream(w.r, nil, stm)
+	if err == nil {
+		_, err = io.ReadAll(rc)
+		rc.Close()
+	}
+	w.note(tk, "badstream(%s) err=%v", ref, err)
+	if err == nil {
+		w.fail("sequential-equivalence", map[string]string{"op": "badstream"}, "a stream deflated once but declared [/FlateDecode /FlateDecode] decodes without error")
+	}
+	w.e.Probe("failing filter chain decoded")
+}
+
 // opOtherFile writes and reads an independent file: it shares only
 // package-level state (the zlib pools) with the other tasks.
 func (w *world) opOtherFile(tk int, seed int) {
@@ -641,6 +664,9 @@ func Run(e *core.Env) {
 				o.kind, o.ref = "stream", d.Streams[t.Draw(l+".sref", len(d.Streams))]
 			case 6:
 				o.kind, o.n = "otherfile", t.Draw(l+".seed", 100)
+				if d.BadStream != 0 && t.Bool(l+".bad", 1, 2) {
+					o.kind, o.ref = "badstream", d.BadStream
+				}
 			default:
 				o.kind, o.n = "cmap", t.Draw(l+".cm", 15)
 			}
@@ -696,6 +722,8 @@ func Run(e *core.Env) {
 						w.opStream(i, o.ref)
 					case "otherfile":
 						w.opOtherFile(i, o.n)
+					case "badstream":
+						w.opBadStream(i, o.ref)
 					case "cmap":
 						w.opCMap(i, o.n)
 					}
